@@ -2584,9 +2584,8 @@ func (c *streamableClientConn) checkResponse(ctx context.Context, requestSummary
 	// Setting MCPGODEBUG=noprotocolerrorbody=1 restores the previous behavior.
 	if noprotocolerrorbody != "1" && (resp.StatusCode < 200 || resp.StatusCode >= 300) {
 		body, _ := io.ReadAll(resp.Body)
-		msg, _ := jsonrpc.DecodeMessage(body)
-		if response, ok := msg.(*jsonrpc.Response); ok && response.Error != nil {
-			return fmt.Errorf("%s: %w: %w: %v", requestSummary, response.Error, jsonrpc2.ErrRejected, http.StatusText(resp.StatusCode))
+		if werr := decodeErrorBody(body); werr != nil {
+			return fmt.Errorf("%s: %w: %w: %v", requestSummary, werr, jsonrpc2.ErrRejected, http.StatusText(resp.StatusCode))
 		}
 	}
 	// §2.5.3: "The server MAY terminate the session at any time, after
@@ -2601,6 +2600,28 @@ func (c *streamableClientConn) checkResponse(ctx context.Context, requestSummary
 		return fmt.Errorf("%s: %v", requestSummary, http.StatusText(resp.StatusCode))
 	}
 	return nil
+}
+
+// decodeErrorBody returns the JSON-RPC error carried by the body of a non-2xx
+// answer, or nil if the body holds none. The error answer to a notification
+// or to a response has no id to echo, so unlike [jsonrpc.DecodeMessage] this
+// does not require one.
+func decodeErrorBody(body []byte) error {
+	if msg, _ := jsonrpc.DecodeMessage(body); msg != nil {
+		if response, ok := msg.(*jsonrpc.Response); ok {
+			return response.Error
+		}
+		return nil
+	}
+	var wire struct {
+		VersionTag string         `json:"jsonrpc"`
+		Method     string         `json:"method"`
+		Error      *jsonrpc.Error `json:"error"`
+	}
+	if err := internaljson.Unmarshal(body, &wire); err != nil || wire.VersionTag != "2.0" || wire.Method != "" || wire.Error == nil {
+		return nil
+	}
+	return wire.Error
 }
 
 // processStream reads from a single response body, sending events to the
